@@ -56,3 +56,9 @@ package unixfsnode
 //@ func (*unixfsnode._PathedPBNode).LookupByNode
 //@ prop C03 C15
 //@ ensures key-node-is-looked-up-by-its-string: err == nil ==> lastKey(n) == nodeString(key)
+
+// C03: the selector is built from the path exactly as given (no normalisation of segments: names
+// may begin or end with whitespace).
+//@ func unixfsnode.UnixFSPathSelectorBuilder
+//@ prop C03
+//@ at call github.com/ipld/go-ipld-prime.ParsePath#1 assert path-is-parsed-as-given: callee_pth == path
